@@ -5,7 +5,7 @@
    whole Encode/Decode runs and "generated == generator output" are decided by
    the check's differential part (see DESIGN.md §5 C05: partial). *)
 From Coq Require Import List NArith ZArith Bool.
-From Verif Require Import C05.Model C05.Proofs.
+From Verif Require Import C05.Model C05.Proofs Gen.Layout C05.Layout C05.LayoutProofs.
 Import ListNotations.
 
 (* The full statement one would like: the two builds agree on every value. *)
@@ -40,3 +40,29 @@ Example C05_nonvacuous :
   dom_mz false v = true /\ dom_rec v = true /\ safe_empty false v = true /\
   dom_mz false w = true /\ dom_rec w = true /\ safe_empty true w = false.
 Proof. vm_compute. repeat split. Qed.
+
+(* ---- field addressing: unsafe (base + stored offset) = safe (reflect Field(i)) ----
+   The widths of structFieldInfoNode.offset and of the conversions that fill it are read from the
+   current source on every run (Gen/Layout.v). For every struct field at a byte offset below 2^32 the
+   unsafe build computes the address the safe build gets from reflect; wider structs are outside the
+   statement (a Go value of 4 GiB). *)
+Theorem C05_field_addr : forall base off : Z, (0 <= off < 2 ^ 32)%Z ->
+  unsafe_field_addr base off = safe_field_addr base off.
+Proof. exact field_addr_lemma. Qed.
+Print Assumptions C05_field_addr.
+
+(* the fields are unsigned, at least 32 bits wide, and no literal narrows the offset below the field's width *)
+Theorem C05_field_widths : sfi_offset_signed = false /\ (32 <= sfi_offset_bits)%Z /\
+  forallb (fun c => (sfi_offset_bits <=? c)%Z) sfi_offset_conv_bits = true.
+Proof. exact widths_lemma. Qed.
+Print Assumptions C05_field_widths.
+
+(* with the 16-bit field of the pinned tree the statement is false (finding F01-3: a field behind a
+   [66000]byte array was read and written at offset mod 65536) *)
+Theorem C05_field_addr_16_refuted : exists base off : Z, (0 <= off < 2 ^ 32)%Z /\
+  unsafe_field_addr_w 16 base off <> safe_field_addr base off.
+Proof. exact field_addr_16_refuted. Qed.
+Print Assumptions C05_field_addr_16_refuted.
+
+Example C05_field_addr_nonvacuous : unsafe_field_addr 4096 66008 = 70104%Z /\ stored_offset 66008 = 66008%Z.
+Proof. vm_compute. split; reflexivity. Qed.
